@@ -716,3 +716,11 @@ _add_family(globals(), _dw, 'deadwriter', _dw.oracle, share=0.08)
 # parallel processes and steps generated at run time, then moved: the hierarchy holds what the engine runs
 from harness import parstruct as _ps                    # noqa: E402
 _add_family(globals(), _ps, 'parstruct', _ps.oracle, share=0.03)
+
+
+# compartments moved by multi-segment sources: the hierarchy holds each of them once, where the engine runs it
+import types as _types                                  # noqa: E402
+from harness import movefar as _mf                      # noqa: E402
+_mf10 = _types.SimpleNamespace(gen_case=_mf.gen_case, run_impl=_mf.run_impl,
+                               corpus=lambda: [c for c in _mf.corpus() if not c.get('wider')])
+_add_family(globals(), _mf10, 'movefar', _mf.oracle, share=0.03)
